@@ -42,6 +42,9 @@ struct FailingWriter {
     partial: bool,
     failed: bool,
     writes_after_failure: usize,
+    /// at most this many octets per `write` call (0 = everything offered): a sink may legally
+    /// take less than offered
+    chunk: usize,
 }
 
 impl Write for FailingWriter {
@@ -52,6 +55,10 @@ impl Write for FailingWriter {
         let left = self.budget - self.got.len();
         if buf.is_empty() {
             return Ok(0);
+        }
+        if self.chunk != 0 && buf.len() > self.chunk && left >= self.chunk {
+            self.got.extend_from_slice(&buf[..self.chunk]);
+            return Ok(self.chunk);
         }
         if buf.len() <= left {
             self.got.extend_from_slice(buf);
@@ -74,6 +81,9 @@ struct FailingReader<'a> {
     inner: Cursor<&'a [u8]>,
     budget: usize,
     pulled: usize,
+    /// at most this many octets per `read` call (0 = as many as asked for): a source may legally
+    /// deliver less than requested
+    chunk: usize,
 }
 
 impl<'a> Read for FailingReader<'a> {
@@ -89,7 +99,10 @@ impl<'a> Read for FailingReader<'a> {
             }
             return Err(std::io::Error::new(std::io::ErrorKind::ConnectionReset, INJECTED));
         }
-        let n = buf.len().min(left);
+        let mut n = buf.len().min(left);
+        if self.chunk != 0 {
+            n = n.min(self.chunk);
+        }
         let r = self.inner.read(&mut buf[..n])?;
         self.pulled += r;
         Ok(r)
@@ -150,7 +163,11 @@ impl C16 {
                     partial,
                     failed: false,
                     writes_after_failure: 0,
+                    chunk: if (k + n) % 3 == 0 { 1 + k % 3 } else { 0 },
                 };
+                if w.chunk != 0 {
+                    rep.count("writers.short_write_sinks");
+                }
                 rep.evals += 1;
                 shell::progress_entry(1600 + ti as u64);
                 let r = match shell::guarded(|| (t.write)(&input, &mut w)) {
@@ -233,7 +250,15 @@ impl C16 {
                         }
                         rep.count("slices.ok");
                     }
-                    Err((required, l)) => {
+                    Err((required, l, restated)) => {
+                        if let Some(other) = restated {
+                            rep.violation(
+                                &format!("space_error_restated|{}", t.name),
+                                format!("{}: slice of {} bytes for a {} byte header: the error states required_len={} len={}, but {}", t.name, len, n, required, l, other),
+                                &input,
+                            );
+                            return;
+                        }
                         if len >= n || required != n || l != len {
                             rep.violation(
                                 &format!("space_error_fields|{}", t.name),
@@ -273,12 +298,19 @@ impl C16 {
         let ti = rng.usize_below(HEADERS.len());
         let t = &HEADERS[ti];
         let bytes = (t.gen)(rng);
-        // unfaulted reference run
+        // one case in three: a source that hands out 1-3 octets per call
+        let chunk = if rng.chance(1, 3) { rng.range(1, 3) as usize } else { 0 };
+        if chunk != 0 {
+            rep.count("readers.chunked_source");
+        }
+        // unfaulted reference run (from a source that always fills the buffer: what a chunked
+        // source delivers in the end is the same data, so the result has to be the same)
         let base = shell::guarded(|| {
             let mut r = FailingReader {
                 inner: Cursor::new(&bytes[..]),
                 budget: usize::MAX,
                 pulled: 0,
+                chunk: 0,
             };
             let res = (t.read)(&mut r, &bytes);
             (res, r.pulled)
@@ -299,6 +331,7 @@ impl C16 {
                     inner: Cursor::new(&bytes[..]),
                     budget: k,
                     pulled: 0,
+                    chunk,
                 };
                 let res = (t.read)(&mut r, &bytes);
                 (res, r.pulled)
@@ -383,6 +416,7 @@ impl C16 {
         };
         let trailing = rng.bytes(64);
         bytes.extend_from_slice(&trailing);
+        let chunk = if rng.chance(1, 3) { rng.range(1, 3) as usize } else { 0 };
         let name = ["IpAuthHeader::read_limited", "Ipv6RawExtHeader::read_limited", "Ipv6FragmentHeader::read_limited", "Ipv4Extensions::read_limited", "Ipv6Extensions::read_limited"][which as usize];
         let run = |limit: usize| -> Result<(Result<String, (String, usize, usize)>, usize), crate::shell::Panicked> {
             shell::guarded(|| {
@@ -390,6 +424,7 @@ impl C16 {
                     inner: Cursor::new(&bytes[..]),
                     budget: usize::MAX,
                     pulled: 0,
+                    chunk,
                 };
                 let mut lr = LimitedReader::new(inner, limit, LenSource::Ipv6HeaderPayloadLen, 40, Layer::Ipv6ExtHeader);
                 let map_len = |l: &err::LenError| (format!("Len:{:?}", l.layer), l.required_len, l.len);
@@ -512,7 +547,11 @@ impl C16 {
                     partial,
                     failed: false,
                     writes_after_failure: 0,
+                    chunk: if (k + n) % 3 == 0 { 1 + k % 3 } else { 0 },
                 };
+                if w.chunk != 0 {
+                    rep.count("writers.short_write_sinks");
+                }
                 rep.evals += 1;
                 shell::progress_entry(1690);
                 let r = match shell::guarded(|| builder::run(&c, Out::Writer(&mut w), &payload)) {
